@@ -44,15 +44,19 @@ size_t libwifi_get_assoc_resp_length(struct libwifi_assoc_resp *assoc_resp) {
 int libwifi_set_assoc_resp_channel(struct libwifi_assoc_resp *assoc_resp, uint8_t channel) {
     int ret = 0;
 
-    if (assoc_resp->tags.length != 0) {
-        ret = libwifi_remove_tag(&assoc_resp->tags, TAG_DS_PARAMETER);
-        if (ret != 0) {
-            return ret;
-        }
-    }
+    // The new tag is added before the old one is removed, so that a failed
+    // allocation leaves the existing tag in place
+    int had_tag = (assoc_resp->tags.length != 0) && (libwifi_check_tag(&assoc_resp->tags, TAG_DS_PARAMETER) > 0);
 
     const unsigned char *chan = (const unsigned char *) &channel;
     ret = libwifi_quick_add_tag(&assoc_resp->tags, TAG_DS_PARAMETER, chan, 1);
+    if (ret != 0) {
+        return ret;
+    }
+
+    if (had_tag) {
+        ret = libwifi_remove_tag(&assoc_resp->tags, TAG_DS_PARAMETER);
+    }
 
     return ret;
 }
